@@ -8,7 +8,7 @@ import os
 from . import core
 
 SPEC_DIR = os.path.join(core.SPEC, "lin")
-FAMILIES = "ABCDEFI"
+FAMILIES = "ABCDEFIJ"
 
 
 def src_hash(ev):
